@@ -26,7 +26,7 @@ MODEL_MODULES = ['SkyllhModel.Model.Rng', 'SkyllhModel.Model.RngDeep']
 # recorded values of the constants read from the source (used when extraction fails)
 _RECORDED = dict(sideRight=True, seedStart=1, seedSearchRepaired=True, workerSeedLow=0,
                  workerSeedHigh=2 ** 32, minimizerSeedFromRss=True, minimizerRssForwarded=True,
-                 probSumTestRejectsNaN=True)
+                 probSumTestRejectsNaN=True, sigKwargsOverwritesMean=True)
 _GEN = {}
 
 
@@ -143,6 +143,26 @@ def _extract():
         vals['minimizerRssForwarded'] = fw[0].id != 'rss'
     except Exception:  # noqa
         failed.append('minimizerRssForwarded')
+    # Analysis.generate_signal_events: how the mean gets into the caller's sig_kwargs dict
+    try:
+        f = _find(_find(_parse('skyllh/core/analysis.py'), ast.ClassDef, 'Analysis'), ast.FunctionDef, 'generate_signal_events')
+        over, keep = [], []
+        for n in ast.walk(f):
+            if isinstance(n, ast.Call) and isinstance(n.func, ast.Attribute) and isinstance(n.func.value, ast.Name) \
+                    and n.func.value.id == 'sig_kwargs':
+                if n.func.attr == 'update' and any(k.arg == 'mean' for k in n.keywords):
+                    over.append(n)
+                elif n.func.attr == 'setdefault' and n.args and isinstance(n.args[0], ast.Constant) and n.args[0].value == 'mean':
+                    keep.append(n)
+            if isinstance(n, ast.Assign) and any(
+                    isinstance(t, ast.Subscript) and isinstance(t.value, ast.Name) and t.value.id == 'sig_kwargs'
+                    and isinstance(t.slice, ast.Constant) and t.slice.value == 'mean' for t in n.targets):
+                over.append(n)
+        if len(over) + len(keep) != 1:
+            raise LookupError('sig_kwargs mean')        # e.g. a copy of the dict is made: the correspondence decides
+        vals['sigKwargsOverwritesMean'] = bool(over)
+    except Exception:  # noqa
+        failed.append('sigKwargsOverwritesMean')
     # RandomChoice._assert_probabilities: form of the test of the sum against the tolerance
     try:
         f = _find(_find(_parse('skyllh/core/random.py'), ast.ClassDef, 'RandomChoice'), ast.FunctionDef, '_assert_probabilities')
@@ -190,6 +210,8 @@ def generated(ctx):
         'def minimizerRssForwarded : Bool := %s' % b(vals['minimizerRssForwarded']),
         '/-- RandomChoice._assert_probabilities tests the sum with `not (abs(p_sum - 1) <= atol)` (rejects NaN) -/',
         'def probSumTestRejectsNaN : Bool := %s' % b(vals['probSumTestRejectsNaN']),
+        "/-- generate_signal_events sets sig_kwargs['mean'] on every call (update / assignment), not only when missing -/",
+        'def sigKwargsOverwritesMean : Bool := %s' % b(vals['sigKwargsOverwritesMean']),
         'end Gen.C08', ''])
 
 
@@ -1366,6 +1388,48 @@ def o_error_poststate(ctx, case):
     return None
 
 
+def o_kwargs_history(ctx, case):
+    """ONE sig_kwargs dict, ONE bkg_kwargs dict and ONE mean_n_bkg_list handed to a sequence of do_trials / do_trial /
+    generate_pseudo_data calls with different mean_n_sig: every call returns what the same call returns when it is
+    given new containers with the original content (pseudo data is a function of seed and arguments, not of what
+    the containers were used for before)"""
+    import copy
+    c = case['cfg']
+    ana = _mk_ana(c)
+    proto = {'sig_kwargs': case.get('sig_kwargs'), 'bkg_kwargs': case.get('bkg_kwargs'), 'mean_n_bkg_list': case.get('mean_n_bkg_list')}
+    used = copy.deepcopy(proto)
+
+    def call(st, cont):
+        rss = _svc(st['seed'], 0)
+        kw = {k: v for k, v in cont.items() if v is not None}
+        with _Watchdog(120):
+            if st['via'] == 'do_trials':
+                r = ana.do_trials(rss, st['n'], ncpu=1, mean_n_sig=st['nsig'], **kw)
+                return r['n_ev'].tobytes() + r['data'].tobytes() + r['xmin'].tobytes()
+            if st['via'] == 'do_trial':
+                r = ana.do_trial(rss, mean_n_sig=st['nsig'], **kw)
+                return r['n_ev'].tobytes() + r['data'].tobytes() + r['xmin'].tobytes()
+            (n_sig, n_list, ev_list) = ana.generate_pseudo_data(rss, mean_n_sig=st['nsig'], **kw)
+            return repr((n_sig, n_list)).encode() + np.asarray(ev_list[0]['x']).tobytes()
+    for k, st in enumerate(case['steps']):
+        try:
+            got = call(st, used)
+            want = call(st, copy.deepcopy(proto))
+        except MachineryError:
+            raise
+        except Exception as e:  # noqa
+            return 'call %d of %r raised %s: %s' % (k, case['steps'], type(e).__name__, e)
+        if got != want:
+            return ('pseudo data depends on what the option containers were used for before: with ONE sig_kwargs=%r / bkg_kwargs=%r / '
+                    'mean_n_bkg_list=%r object handed to the calls %r, call %d (%s, seed %d, mean_n_sig=%r) returns other data than the '
+                    'same call with new containers of the same content (cfg %r)' % (
+                        proto['sig_kwargs'], proto['bkg_kwargs'], proto['mean_n_bkg_list'], case['steps'][:k], k, st['via'], st['seed'],
+                        st['nsig'], c))
+    if used['mean_n_bkg_list'] != proto['mean_n_bkg_list'] or used['bkg_kwargs'] != proto['bkg_kwargs']:
+        return 'the mean_n_bkg_list / bkg_kwargs handed in were modified: %r' % (used,)
+    return None
+
+
 def _atol(dtype):
     return float(max(np.sqrt(np.finfo(np.float64).eps), np.sqrt(np.finfo(dtype).eps)))
 
@@ -1577,7 +1641,8 @@ _BRANCHES = [
     'clipOne:inside', 'construct:REJ:type', 'construct:REJ:value', 'construct:accepted', 'getNcpu:local', 'getNcpu:config',
     'getNcpu:default', 'getNcpu:raises', 'extendFile:returns', 'extendFile:raises-index', 'extendFile:raises-runtime',
     'extendFile:reseeds', 'extendFile:keeps-seed', 'tstep:set-intervals', 'tstep:draw-long-lived-service', 'tstep:draw-new-service',
-    'drawWin:no-window', 'drawWin:window', 'drawWin:one-sided-window', 'gridOf:scalar', 'gridOf:r2', 'gridOf:r3', 'gridOf:array', 'extendLabels:reseeded', 'extendLabels:continues-at-position',
+    'drawWin:no-window', 'drawWin:window', 'drawWin:one-sided-window', 'sigMean:no-dict', 'sigMean:dict-without-mean',
+    'sigMean:dict-with-mean', 'gridOf:scalar', 'gridOf:r2', 'gridOf:r3', 'gridOf:array', 'extendLabels:reseeded', 'extendLabels:continues-at-position',
     'extendLabels:one-process', 'extendLabels:several-processes', 'extendMany:history', 'extendShared:history',
 ]
 # branches of the model that no valid input reaches, with the theorem that says so
@@ -1656,9 +1721,11 @@ def _extfile_req(case):
         cand = sorted(set(cand) | {mini['seed']})
         B = max(B, 2 * mini['pre'] + 2 * n * npts * c['npar'] * c['maxrep'] + 8)
         tabs = ';'.join('%d=%s' % (sd, ','.join(str(int(x)) for x in _words(sd, B))) for sd in cand)
-    return 'extfile %d %d %d %d %d %s %s %s %s %d %s %d %d %s %s %s' % (
+    kw = case.get('sigkw')
+    kwt = '-' if kw is None else 'e' if kw == 'e' else 'm:' + f2b(kw['mean'])
+    return 'extfile %d %d %d %d %d %s %d %s %s %s %s %d %s %d %d %s %s %s' % (
         _gen()['seedStart'], n, case.get('ncpu', 1), case['cur'], 2 * pre, ('%d:%d' % (mini['seed'], 2 * mini['pre'])) if mini else '-',
-        ilist(file), _grid_tok(case['g1']), _grid_tok(case['g2']),
+        1 if _gen()['sigKwargsOverwritesMean'] else 0, kwt, ilist(file), _grid_tok(case['g1']), _grid_tok(case['g2']),
         c['maxev'], f2b(c['thr']), c['maxrep'], c['npar'], f2b(c['lo']), f2b(c['hi']), tabs)
 
 
@@ -1674,6 +1741,11 @@ def _extfile_impl(case):
     mini = case.get('mini')
     mrss = _svc(mini['seed'], mini['pre']) if mini else None
     kw = {'minimizer_rss': mrss} if mini else {}
+    skw = case.get('sigkw')
+    if skw is not None:
+        # ONE dict object of the caller, handed by create_trial_data_file to do_trials for every grid point
+        kw['sig_kwargs'] = {'tag': 1} if skw == 'e' else {'tag': 1, 'mean': skw['mean']}
+        kw['bkg_kwargs'] = {'tag': 2}
     try:
         with _Watchdog(120):
             out = extend_trial_data_file(ana, rss, case['n'], td, mean_n_sig=_grid_py(case['g1']), mean_n_sig_null=_grid_py(case['g2']),
@@ -1695,6 +1767,8 @@ def _extfile_compare(case, impl, model, count=None):
         count('branch:extendFile:' + ('reseeds' if case['cur'] in case['file'] else 'keeps-seed'))
         count('branch:gridOf:%s' % case['g1']['form'])
         count('branch:gridOf:%s' % case['g2']['form'])
+        skw = case.get('sigkw')
+        count('branch:sigMean:' + ('no-dict' if skw is None else 'dict-without-mean' if skw == 'e' else 'dict-with-mean'))
     if 'ERR' in parts:
         if not (isinstance(res, str) and res.startswith('RAISED:')):
             return 'model: extend_trial_data_file raises (%s), the implementation returned' % parts['ERR']
@@ -1898,6 +1972,7 @@ ORACLES = {
     'time_history': o_time_history, 'choice_history': o_choice_history, 'rss_history': o_rss_history,
     'seed_shared': o_seed_shared, 'extend_real': o_extend_real,
     'error_poststate': o_error_poststate, 'choice_nan': o_choice_nan, 'extend_labels': o_extend_labels,
+    'kwargs_history': o_kwargs_history,
     'corr': o_corr,
 }
 
@@ -1910,6 +1985,7 @@ _SIG = {
     'rss_history': 'C08/RandomStateService/history-',
     'error_poststate': 'C08/do_trial/raise-poststate-', 'choice_nan': 'C08/RandomChoice.__init__/accepts-',
     'extend_labels': 'C08/extend_trial_data_file/worker-label-',
+    'kwargs_history': 'C08/generate_pseudo_data/reused-option-containers-',
     'seed_shared': 'C08/extend_trial_data_file/shared-service-', 'extend_real': 'C08/extend_trial_data_file/real-analysis-',
 }
 
@@ -2266,12 +2342,22 @@ def run(ctx):  # noqa: C901
             g2['v'] = float(int(g2['v']))
         cases.append({'kind': 'extfile', 'cfg': _gen_cfg(rng), 'file': file, 'cur': rng.choice(file) if file and j % 3 else rng.randrange(0, 7),
                       'pre': rng.choice([0, 0, 3]), 'n': 0 if j % 11 == 5 else rng.choice([1, 2, 3]), 'g1': g1, 'g2': g2,
-                      'mini': {'seed': rng.choice(seeds0), 'pre': rng.choice([0, 2])} if j % 4 == 1 else None})
+                      'mini': {'seed': rng.choice(seeds0), 'pre': rng.choice([0, 2])} if j % 4 == 1 else None,
+                      'sigkw': [None, 'e', 'e', {'mean': rng.choice([1.0, 4.0])}][j % 4]})
     z = {'form': 'scalar', 'v': 0.0, 'num': 'float'}
     cases.append({'kind': 'extfile', 'cfg': _gen_cfg(rng), 'file': [0, 1], 'cur': 1, 'pre': 0, 'n': 0, 'g1': dict(z, v=1.0), 'g2': z, 'mini': None})
     cases.append({'kind': 'extfile', 'cfg': _gen_cfg(rng), 'file': [0, 1], 'cur': 5, 'pre': 2, 'n': 2, 'g1': {'form': 'array', 'v': []}, 'g2': z, 'mini': None})
     cases.append({'kind': 'extfile', 'cfg': _gen_cfg(rng), 'file': [0, 1], 'cur': 0, 'pre': 0, 'n': 1, 'g1': {'form': 'r3', 'v': [0.0, 2.0, 2.0], 'seq': 'list'},
                   'g2': z, 'mini': None})
+    for j in range(ctx.n(14, 200)):
+        steps = [{'via': rng.choice(['do_trials', 'do_trial', 'generate_pseudo_data']), 'seed': rng.choice(seeds0), 'n': rng.choice([1, 2]),
+                  'nsig': rng.choice([0, 1, 2, 3, 2.5])} for _ in range(rng.randrange(2, 6))]
+        if j % 2 == 0:      # two different non-zero strengths in a row
+            steps[0]['nsig'], steps[1]['nsig'] = rng.choice([[1, 3], [3, 1], [2, 1]])
+        oracle_cases.append(('kwargs_history', {
+            'cfg': _gen_cfg(rng), 'steps': steps,
+            'sig_kwargs': [{'tag': 1}, {}, {'tag': 1, 'mean': 2}, None][j % 4],
+            'bkg_kwargs': [{'tag': 2}, None][j % 2], 'mean_n_bkg_list': [[3.0], None][(j // 2) % 2]}))
     for cv in (None, -1, 0, 1, 3):
         for lv in (None, -2, 0, 1, 2, 5):
             cases.append({'kind': 'ncpu', 'cfg': cv, 'loc': lv})
@@ -2425,7 +2511,11 @@ def _oracle_cases_for(c):
         return [('choice_nan', {'p': c['p'], 'dtype': c.get('dtype', 'float64'), 'us': c['us'] or [0.0]})]
     if k == 'labels':
         return [('extend_labels', {x: v for x, v in c.items() if x != 'kind'})]
-    if k in ('ncpu', 'extfile'):
+    if k == 'extfile':
+        g = np.arange(1, 4) if c.get('sigkw') is not None else []
+        return [('kwargs_history', {'cfg': c['cfg'], 'sig_kwargs': {'tag': 1}, 'bkg_kwargs': {'tag': 2}, 'mean_n_bkg_list': None,
+                                    'steps': [{'via': 'do_trials', 'seed': c['cur'], 'n': max(1, c['n']), 'nsig': int(m)} for m in g]})] if len(g) else []
+    if k == 'ncpu':
         return []
     if k == 'timehist':
         return [('time_history', {x: v for x, v in c.items() if x != 'kind'})]
@@ -2445,7 +2535,7 @@ def _oracle_cases_for(c):
 
 
 MANIFEST = dict(
-    text=('Lean theorems (76, no sorry) on a model of skyllh\'s random handling in which services are references into a store: '
+    text=('Lean theorems (80, no sorry) on a model of skyllh\'s random handling in which services are references into a store: '
           'non-interference of the minimiser with the data side of do_trials for master and workers (with the aliasing counterexample), '
           'fresh default minimiser stream, independence of rows from earlier histories, do_trials/get_ncpu error paths; Minimizer.minimize as '
           'coded (restart loop, stopping reasons, ValueError, words read also when it raises, clipping, restart initials in bounds) and trials '
